@@ -417,8 +417,10 @@ class Interp:
         if t in ("str", "char", "int"):
             v = e.get("v")
             if t == "int":
+                import re as _re
+                m_ = _re.match(r"^(0x[0-9a-fA-F_]+|0o[0-7_]+|0b[01_]+|\d[\d_]*)", str(v))
                 try:
-                    v = int(str(v).rstrip("usizei8163264_"))
+                    v = int(m_.group(1).replace("_", ""), 0) if m_ else UNK
                 except ValueError:
                     v = UNK
             return [Out("val", v, st)]
